@@ -71,7 +71,8 @@ def _cases(shard):
                 op('algebra', st.sampled_from(['union', 'intersection', 'difference', 'or', 'and', 'sub']), st.lists(K, max_size=8),
                    st.sampled_from(['Set', 'TreeSet', 'list'] + (['Bucket', 'BTree'] if is_map else [])), boom),
                 op('merge', st.lists(K, max_size=4), st.lists(K, max_size=4), st.lists(K, max_size=4), boom),
-                op('pickle'), op('badkey'), op('clear'), op('copy')]
+                op('pickle'), op('badkey'), op('clear'), op('copy'),
+                op('badstate', st.lists(K, min_size=1, max_size=6), st.integers(0, 5), st.booleans())]
         hist = draw(st.lists(st.one_of(*ops), min_size=4, max_size=45))
         fill = draw(st.integers(0, 14))
         start = draw(st.integers(0, 12))
@@ -92,7 +93,7 @@ def replay(case, ctx):
     run_case(case, ctx)
 
 
-READONLY = ('get', 'in', 'keys', 'keysx', 'minKey', 'maxKey', 'cursor', 'values', 'items', 'pickle')
+READONLY = ('get', 'in', 'keys', 'keysx', 'minKey', 'maxKey', 'cursor', 'values', 'items', 'pickle', 'badstate')
 
 
 def _node_refs(t, w):
@@ -497,6 +498,31 @@ def _step(w, t, klass, op, alive, stats, classes):
         except TypeError:
             stats['fail'] += 1
         del bad
+    elif name == 'badstate':
+        # a fresh leaf is handed a state whose j-th item cannot be converted: TypeError, and the items
+        # taken before it must be released again
+        leaf = F.cls(w.fam, F.leaf_kind(w.kind), 'c')
+        ns = sorted(set(op[1]))
+        j = op[2] % len(ns)
+        bad_key = op[3] and not w.okey
+        data = []
+        for i, a in enumerate(ns):
+            k = w.K(a)
+            if i == j and bad_key:
+                k = 'not a key'
+            data.append(k)
+            if w.is_map:
+                v = w.V(a % 3)
+                if i == j and not bad_key and not w.oval:
+                    v = 'not a value'
+                data.append(v)
+        x = leaf()
+        try:
+            x.__setstate__((tuple(data),))
+        except TypeError:
+            stats['fail'] += 1
+            classes.append('badstate:rejected')
+        del x, data
     elif name == 'clear':
         t.clear()
         m.clear()
